@@ -119,6 +119,7 @@ type sliceDef struct {
 	attrVars []attrVariant // nil: only the short .gitattributes files of the shape table
 	revs     []revSpec     // nil: every revision argument of the shape in this tier
 	excl     []exclSpec    // nil: every fetchexclude value of the shape
+	skip     bool          // VERIF_ONLY (debugging aid) deselected this slice; it keeps its position so that choice vectors stay valid
 }
 
 func (sl *sliceDef) domains(p *plan, sh *shape) ([]attrVariant, []revSpec, []exclSpec) {
@@ -182,6 +183,9 @@ func makePlan(shs []shape, thorough bool) plan {
 			}
 		}
 		p.revs = append(p.revs, revs)
+		if sh.family == "index" {
+			continue // the index-state shapes have their own slices (indexSlices), appended below
+		}
 		n := len(sh.objects)
 		none := make([]int, n)
 		canon := allCanon(sh.nslots)
@@ -243,6 +247,19 @@ func makePlan(shs []shape, thorough bool) plan {
 		}
 	}
 	p.slices = append(append([]sliceDef{rest[0]}, front...), rest[1:]...)
+	// the index-state dimension of the no-argument form (c13_index_verif_test.go); appended, so the positions of the history slices stay
+	p.slices = append(p.slices, indexSlices(shs, thorough)...)
+	if only := os.Getenv("VERIF_ONLY"); only != "" { // debugging aid: explore only the slices whose name starts with one of the comma-separated prefixes
+		for i := range p.slices {
+			keep := false
+			for _, pre := range strings.Split(only, ",") {
+				if pre != "" && strings.HasPrefix(p.slices[i].name, pre) {
+					keep = true
+				}
+			}
+			p.slices[i].skip = !keep
+		}
+	}
 	return p
 }
 
@@ -380,6 +397,7 @@ type env struct {
 	shapes []shape
 	plan   plan
 	cases  string
+	replaying bool
 }
 
 func applyDamage(lfsdir string, sh *shape, vec []int) {
@@ -419,6 +437,9 @@ func (ev *env) run(x *vx.X) vx.Result {
 	pl := ev.plan
 	sl := pl.slices[x.In(len(pl.slices))]
 	sh := &ev.shapes[sl.shape]
+	if sl.skip && !ev.replaying {
+		return vx.Result{Outcome: "slice deselected by VERIF_ONLY"}
+	}
 	avs, revs, excls := sl.domains(&pl, sh)
 	assign := sl.forms[x.In(len(sl.forms))]
 	av := avs[x.In(len(avs))]
@@ -516,6 +537,12 @@ func (ev *env) run(x *vx.X) vx.Result {
 			outsideInclude := ex.include != "" && !exp.objInsideInclude[oid]
 			if reported[oid] {
 				cnt("O1.demanded-damaged-object-named/" + damageNames[damageOf[oid]])
+				if exp.objWhy[oid] == "index" {
+					cnt("O1.object-demanded-by-the-index-only-named")
+					if exp.objExcludedInCommit[oid] {
+						cnt("O1.object-demanded-by-the-index-only-named/fetchexcluded-in-HEAD")
+					}
+				}
 				if outsideInclude {
 					cnt("O1.demanded-damaged-object-outside-fetchinclude-named")
 				}
@@ -524,8 +551,12 @@ func (ev *env) run(x *vx.X) vx.Result {
 				if outsideInclude {
 					// lfs.fetchinclude is not documented to restrict fsck
 					ctx = "outside-fetchinclude"
-				} else if exp.objAlsoExcluded[oid] {
+				} else if exp.objWhy[oid] == "commit" && exp.objExcludedInCommit[oid] {
+					// a checked commit holds the pointer blob under a non-excluded AND under an excluded path (finding-1.md)
 					ctx = "shared-with-fetchexcluded-path"
+				} else if exp.objWhy[oid] == "index" && exp.objExcludedInCommit[oid] {
+					// only the index demands it (staged move / copy / edit), HEAD has a pointer to it under an excluded path
+					ctx = "index-entry-shares-object-with-fetchexcluded-head-path"
 				}
 				viol("C13:object-not-reported:"+ctx, fmt.Sprintf("object %s is %s and is referenced by a checked, non-exempt LFS file (%s) but fsck does not name it", oid, damageNames[damageOf[oid]], exp.objWhy[oid]))
 			}
@@ -743,6 +774,12 @@ func (ev *env) run(x *vx.X) vx.Result {
 				wantMove = true // named (whatever the label): it has to be moved aside
 			}
 			switch {
+			case !had && inBad && !wasBad && as.Sha == oid:
+				// The object was absent before fsck (and reported as such); while fsck ran, the clean filter started by its
+				// `git diff-index -M HEAD` stored a work-tree file's content as this object (finding-3.md), and the repair
+				// step then moved that new, VALID object into lfs/bad (finding-4.md).
+				viol("C13:moved:valid-object-created-by-clean-filter-moved-to-bad", fmt.Sprintf("object %s did not exist before fsck; afterwards lfs/bad/%s holds bytes that hash to the oid (an intact object was created during the run and moved aside as corrupt)", oid, oid))
+				explained["added "+dst] = true
 			case wantMove:
 				if still {
 					viol("C13:moved:corrupt-object-left-in-place", fmt.Sprintf("corrupt object %s was reported but is still in lfs/objects", oid))
@@ -816,6 +853,12 @@ func (ev *env) run(x *vx.X) vx.Result {
 		nontrivial = true
 		res.Counters["A.padded-gitattributes-case/"+av.name]++
 	}
+	if sh.family == "index" {
+		res.Counters["I.index-state/"+strings.TrimPrefix(sh.name, "ix-")+"/"+formKey(assign)]++
+		if sh.index != nil && rv.useIndex {
+			nontrivial = true // the index differs from HEAD and is examined
+		}
+	}
 	if nontrivial {
 		res.NonTrivial = []string{id}
 	}
@@ -847,16 +890,45 @@ func TestVerifC13(t *testing.T) {
 	for _, sl := range ev.plan.slices {
 		sh := shs[sl.shape]
 		sl := sl
+		if sl.skip {
+			continue
+		}
 		avs, rvs, exs := sl.domains(&ev.plan, &sh)
 		n := len(sl.forms) * len(avs) * len(sl.damages) * len(rvs) * len(sl.flags) * len(exs)
-		per[sl.name] = map[string]int{"form_assignments": len(sl.forms), "gitattributes_variants": len(avs), "damage_vectors": len(sl.damages), "rev_args": len(rvs), "flag_sets": len(sl.flags), "fetchexclude_values": len(exs), "cases": n}
 		total += n
+		if sh.family == "index" {
+			// one slice per staged state: listed per group, the per-state products have the same domains except that ixform/* exists only for states with a form slot
+			key := sl.name[:strings.IndexByte(sl.name, '/')] + "/<index state>"
+			m, _ := per[key].(map[string]int)
+			if m == nil {
+				m = map[string]int{"form_assignments": len(sl.forms), "gitattributes_variants": len(avs), "damage_vectors": len(sl.damages), "rev_args": len(rvs), "flag_sets": len(sl.flags), "fetchexclude_values": len(exs)}
+				per[key] = m
+			}
+			m["index_states"]++
+			m["cases"] += n
+			continue
+		}
+		per[sl.name] = map[string]int{"form_assignments": len(sl.forms), "gitattributes_variants": len(avs), "damage_vectors": len(sl.damages), "rev_args": len(rvs), "flag_sets": len(sl.flags), "fetchexclude_values": len(exs), "cases": n}
+	}
+	nHist := 0
+	var ixNames []string
+	for _, sh := range shs {
+		if sh.family == "index" {
+			ixNames = append(ixNames, strings.TrimPrefix(sh.name, "ix-"))
+		} else {
+			nHist++
+		}
 	}
 	var alpha []string
 	for _, f := range ev.plan.alpha {
 		alpha = append(alpha, formNames[f])
 	}
-	c.Bounds["shapes"] = len(shs)
+	c.Bounds["shapes"] = nHist
+	c.Bounds["index_states"] = ixNames
+	if only := os.Getenv("VERIF_ONLY"); only != "" {
+		c.Bounds["VERIF_ONLY"] = only
+		fmt.Println("NOTE: VERIF_ONLY restricts the exploration to the slices with prefix", only)
+	}
 	c.Bounds["pointer_form_alphabet"] = alpha
 	c.Bounds["max_damaged_objects_in_objects_slices"] = ev.plan.kObj
 	c.Bounds["damage_kinds"] = damageNames[1:]
@@ -869,7 +941,11 @@ func TestVerifC13(t *testing.T) {
 		"flags/* = 4 further flag spellings on the mixed assignment; cross/{dup,staged} = the remaining (assignment over {canon,crlf,raw} x single damage) cells (staged: also under --dry-run) so that forms x single damages is a full product there.  " +
 		"both tiers: fetchinclude/* = 2 configurations per shape that set lfs.fetchinclude (alone; together with lfs.fetchexclude), some LFS paths inside and some outside the include pattern, x every damage vector with <=1 damaged object x every revision argument (quick: all-canonical, no flag; thorough: + mixed assignment, x {no flag, --objects, --dry-run}).  " +
 		"both tiers: attrsize/misc = size and layout of the .gitattributes blobs (root and nested: 1023, 1024, 1025, 4000 bytes with the tracking lines first, 1024 and 4000 with them last; thorough adds both-large, all revision arguments and fetchexclude values) x all 27 assignments over {canon,crlf,raw} x {no flag, --pointers}.  " +
-		"distinct_nontrivial = distinct cases in which at least one object is damaged, one path is not a canonical pointer or a .gitattributes file is padded (all-intact all-canonical cases only count as executions)"
+		"both tiers, INDEX STATES of the no-argument form (c13_index_verif_test.go): one small world (HEAD: keep/a.bin, keep/b.bin, skip/s.bin; store c0..c4) x the staged states listed under bounds.index_states " +
+		"(add, modify, type change pointer->content, rm --cached, rm, mv within a directory / into a sub-directory / from the excluded directory to a non-excluded one (also into a sub-directory) / the other way / both at once, mv + new content, mv + new file at the old path, chained mv, swapped contents, copy within / out of / into the excluded directory / to an excluded and a non-excluded path at once; each self-checked against `git diff-index -M --cached HEAD`: A, M, D, R100, R<100); one entry per state takes its form from a slot (canonical = plain operation, crlf/nonl = rename + edit with similarity < 100%, raw = staged content instead of a pointer).  " +
+		"quick: ixobj/<state> = main form x {intact, every one of the 4 referenced objects c0..c3 deleted, every one bit-flipped} x no argument x no flag x 4 filter configurations {none, fetchexclude=skip/, fetchinclude=keep/, both}; ixform/<state> = the other forms of {canon,crlf,raw} x one mixed damage vector x {none, fetchexclude=skip/} x {no flag, --pointers}; ixflags/<state> = main form x mixed vector x fetchexclude=skip/ x {no argument, HEAD} x {no flag, --objects, --pointers, --dry-run}.  " +
+		"thorough: ixobj = all 5 damage kinds on every object; ixobj-morecfg = 3 more configurations {fetchexclude=/keep/a.bin (old path of the moves only), fetchexclude=m.bin (new path only), fetchinclude=skip/} x {deleted, bit flip}; ixform = other forms of {canon,crlf,raw,nonl} x {intact, 2 mixed vectors} x 3 configurations x {no flag, --pointers, --dry-run}; ixflags = 2 mixed vectors x 2 configurations x {no argument, HEAD} x 5 flag sets.  " +
+		"distinct_nontrivial = distinct cases in which at least one object is damaged, one path is not a canonical pointer, a .gitattributes file is padded or the examined index differs from HEAD (all-intact all-canonical cases of an unchanged index only count as executions)"
 	c.Assumptions = []string{
 		"scope per docs/man/git-lfs-fsck.adoc: no argument = HEAD plus (objects only) the index; one committish = that commit only; A..B = the commits in the range",
 		"A..B, objects: an object referenced by a tree of the range but already referenced in A or an ancestor may or may not be named (man page silent on whether unchanged files of the range count); objects first referenced inside the range must be named",
@@ -880,6 +956,7 @@ func TestVerifC13(t *testing.T) {
 		"the label (openError vs corruptObject) is not part of the property except that a deleted object must not be called corrupt; duplicate lines are tolerated; the NAME shown next to an oid is not checked",
 		"'--dry-run changes nothing' is read as: lfs/objects, lfs/bad, the Git object database, refs, index, config, hooks and the working tree are unchanged (every regular file and symlink of the repository directory: content and mode; inode and mtime too below .git/lfs); NEW files below .git/lfs/tmp (git-lfs' transient area) are tolerated and counted (counter lfs-tmp-file-left-behind*, see props/C13/finding-2.md); creation of empty directories and directory mtimes are ignored",
 		"without --dry-run the same comparison applies, except that reported corrupt objects must have moved to lfs/bad/<oid> with their bytes, and that a NEW valid object appearing in lfs/objects (stored by the clean filter which fsck's `git diff-index -M HEAD` starts on a stat-dirty work-tree file) is tolerated and counted: the statement forbids touching intact objects and moving anything but corrupt ones, not adding valid ones; under --dry-run it is reported (props/C13/finding-3.md)",
+		"index states: the reference scope of the no-argument form is HEAD plus (object check only) the index, each tree at its own current paths: an object is demanded when a tracked, non-excluded path of HEAD or of the index references it through a decodable pointer, whatever the staged operation was (a file staged for deletion or moved away is still in HEAD; a moved/copied/added file counts at its NEW path); rename detection is an implementation detail of the scan and must not change the answer",
 		"work tree holds pointer text (as after GIT_LFS_SKIP_SMUDGE=1 checkout) and is stat-clean; hooks and local filter config are installed beforehand; linear histories only",
 		"git 2.39.5; subprocess timeout 60 s is a tool guard (=> inconclusive)",
 	}
@@ -894,6 +971,7 @@ func TestVerifC13(t *testing.T) {
 			// the choice domains depend on the tier
 			ev.plan = makePlan(shs, rf.Tier == "thorough")
 		}
+		ev.replaying = true
 		r := exec(rf.Prefix)
 		st := vx.NewStats()
 		st.Absorb(rf.Prefix, &r, 0)
@@ -908,7 +986,7 @@ func TestVerifC13(t *testing.T) {
 	if n, err := strconv.Atoi(os.Getenv("VERIF_C13_WORKERS")); err == nil && n > 0 {
 		workers = n
 	}
-	e := &vx.Explorer{Name: "C13", Workers: workers, BoundEnv: 0, BoundSch: 0, BoundSum: -1, Run: ev.run, Deadline: c.DeadlineAfter(300*time.Second, 23*time.Minute)}
+	e := &vx.Explorer{Name: "C13", Workers: workers, BoundEnv: 0, BoundSch: 0, BoundSum: -1, Run: ev.run, Deadline: c.DeadlineAfter(360*time.Second, 23*time.Minute)}
 	st := e.Explore()
 	extra := map[string]interface{}{"base_repositories_built": len(ev.bases.m), "planned_cases": total}
 	code := c.Finish([]vx.Part{{Scenario: "fsck", Stats: st, Exec: exec}}, extra)
